@@ -235,10 +235,21 @@ var roleTable = []role{
 
 // libCallsOf lists the static library calls of fn as (receiver-field-or-"", callee name).
 func libCallsOf(p *Prog, fn *ssa.Function) [][2]string {
+	return libCallsRec(p, fn, 0)
+}
+
+func libCallsRec(p *Prog, fn *ssa.Function, depth int) [][2]string {
 	var out [][2]string
 	for _, c := range allCalls(fn) {
 		cal := StaticCallee(c.Common())
 		if cal == nil || !p.IsLib(cal) {
+			continue
+		}
+		if !p.KnownFunc(cal) && depth < 4 && cal.Blocks != nil {
+			// a helper the pinned tree does not know: what it calls counts as called here (receiver field unknown)
+			for _, in := range libCallsRec(p, cal, depth+1) {
+				out = append(out, [2]string{"?", in[1]})
+			}
 			continue
 		}
 		field := "?"
@@ -249,7 +260,7 @@ func libCallsOf(p *Prog, fn *ssa.Function) [][2]string {
 				field = ""
 			}
 		}
-		out = append(out, [2]string{field, cal.Name()})
+		out = append(out, [2]string{field, fnName(cal)})
 	}
 	return out
 }
@@ -284,19 +295,27 @@ func ruleR20(c *Ctx) *RuleResult {
 		}
 		// no direct storage access bypassing the inner operation
 		direct := false
-		for _, b := range fn.Blocks {
-			for _, in := range b.Instrs {
-				switch in.(type) {
-				case *ssa.MapUpdate, *ssa.IndexAddr, *ssa.Lookup:
-					if _, isVar := in.(*ssa.IndexAddr); isVar {
-						if ia := in.(*ssa.IndexAddr); isVarargsArray(ia) || ia.X == ssa.Value(fn.Params[len(fn.Params)-1]) {
-							continue
+		var scan func(f *ssa.Function, depth int)
+		scan = func(f *ssa.Function, depth int) {
+			for _, b := range f.Blocks {
+				for _, in := range b.Instrs {
+					switch x := in.(type) {
+					case *ssa.MapUpdate, *ssa.IndexAddr, *ssa.Lookup:
+						if _, isVar := in.(*ssa.IndexAddr); isVar {
+							if ia := in.(*ssa.IndexAddr); isVarargsArray(ia) || (len(f.Params) > 0 && ia.X == ssa.Value(f.Params[len(f.Params)-1])) {
+								continue
+							}
+						}
+						direct = true
+					case ssa.CallInstruction:
+						if cal := StaticCallee(x.Common()); cal != nil && p.IsLib(cal) && !p.KnownFunc(cal) && depth < 4 {
+							scan(cal, depth+1)
 						}
 					}
-					direct = true
 				}
 			}
 		}
+		scan(fn, 0)
 		if okAll && !direct {
 			r.ok(key, clause, p.FuncPos(fn), fmt.Sprintf("library calls: %s", strings.Join(dedup(seen), ", ")))
 		} else {
